@@ -50,7 +50,7 @@ NA.pop("C03", None)
 CHECKS["C19"] = (
     "proof",
     "static analysis: algebraic abstract interpretation of transformations.py (sin/cos as polynomial symbols), identities modulo s^2+c^2=1; constant-table extraction",
-    "Proves for all angles, axes and points (generic branches) that the 24 Euler conventions of euler_matrix are the products of elementary rotations their names spell, that euler_from_matrix reads the matching entries, that quaternion_from_euler yields unit quaternions of the same rotations, that rotation_matrix is the orthonormal det+1 Rodrigues form fixing its point, that transform_around is conjugation by the translation and that transform_points is homogeneous multiplication in 2D/3D; the convention tables are bijections. Gimbal thresholds, branch selection, arctan2 ranges and compose/decompose are not decided.",
+    "Proves for all angles, axes and points (generic branches) that the 24 Euler conventions of euler_matrix are the products of elementary rotations their names spell, that euler_from_matrix reads the matching entries, that quaternion_from_euler yields unit quaternions of the same rotations, that rotation_matrix is the orthonormal det+1 Rodrigues form fixing its point, that in the gimbal-lock branch (middle angle 0 / pi or +-pi/2 exactly) the angles returned by euler_from_matrix rebuild the matrix for all 24 conventions, that transform_around is conjugation by the translation and that transform_points is homogeneous multiplication in 2D/3D; the convention tables are bijections; no matrix builder stores into an array that keeps the caller's dtype. The _EPS threshold itself, arctan2 ranges and compose/decompose are not decided.",
     "Trusted: sympy normal forms; E3 transfer functions; reduction modulo s^2+c^2=1 by substitution; reference fixed by the convention name (static: R_a3 R_a2 R_a1, rotating: R_a1 R_a2 R_a3).",
     "DESIGN.md#c19",
 )
